@@ -100,3 +100,26 @@ def option_helpers(U):
 pub assume_specification<T: Copy> [Option::<&T>::copied] (o: Option<&T>) -> (r: Option<T>)
     ensures r == (match o { Some(x) => Some(*x), None => None::<T> });
 ''')
+
+
+def format_concat(U):
+    """support for R2c: format! as concatenation of literal pieces and Display strings of str-like arguments"""
+    U.outside('''
+use std::borrow::Cow;
+pub trait VxS { fn vx_s(&self) -> String; }
+impl VxS for String { fn vx_s(&self) -> String { self.clone() } }
+impl<'a> VxS for &'a str { fn vx_s(&self) -> String { self.to_string() } }
+impl<'a> VxS for Cow<'a, str> { fn vx_s(&self) -> String { self.to_string() } }
+pub fn vx_lit(s: &'static str) -> String { s.to_string() }
+pub fn vx_cat(mut a: String, b: String) -> String { a.push_str(&b); a }
+''')
+    U.add('''
+#[verifier::external_trait_specification] pub trait ExVxS { type ExternalTraitSpecificationFor: VxS; fn vx_s(&self) -> String; }
+/// ASSUMED: Display of a str / String / Cow<str> is the string itself; format! concatenates pieces and arguments in order
+pub open spec fn cow_str_view(c: Cow<'_, str>) -> Seq<char> { match c { Cow::Borrowed(s) => s@, Cow::Owned(s) => s@ } }
+pub assume_specification [<String as VxS>::vx_s] (s: &String) -> (r: String) ensures r@ == s@;
+pub assume_specification<'a> [<&'a str as VxS>::vx_s] (s: &&'a str) -> (r: String) ensures r@ == (*s)@;
+pub assume_specification<'a> [<Cow<'a, str> as VxS>::vx_s] (s: &Cow<'a, str>) -> (r: String) ensures r@ == cow_str_view(*s);
+pub assume_specification [vx_lit] (s: &'static str) -> (r: String) ensures r@ == s@;
+pub assume_specification [vx_cat] (a: String, b: String) -> (r: String) ensures r@ == a@ + b@;
+''')
